@@ -170,5 +170,5 @@ MUTANTS = [
     dict(name='binary operator(): r<0 branch keeps a', file=BU, find=r'(if \(r < 0\) \{\s*)a = \+\+c;', repl=r'\1++c;', expect=r'btsearch\.binary_search\.call'),
     dict(name='comparator: sign flipped', file=BU, find=r'return \(a > b\) - \(a < b\);', repl='return (a < b) - (a > b);', expect=r'btsearch\.comparator'),
     dict(name='linear lower_bound: returns c+1', file=BU, find=r'(auto r = comp\(\*c, k\);\s*if \(r >= 0\) \{\s*return c)', repl=r'\1 + 1', expect=r'btsearch\.linear_search\.(lower_bound|call)'),
-    dict(name='binary lower_bound: step = count >> 2', file=BU, find=r'(Iter lower_bound\(const Key& k, Iter a, Iter b, Comp& comp\) const \{\s*Iter c;\s*auto count = b - a;\s*while \(count > 0\) \{\s*auto step = count >> )1', repl=r'\g<1>2', expect=r'NEVER'),
+    # (an equivalent mutant — `step = count >> 2` — is correctly NOT flagged: the result is still the lower bound)
 ]
